@@ -73,8 +73,11 @@ Inductive cval : Type :=
 | XBool (b : bool)
 | XArr (l : list cval)
 | XMap (l : list (key * cval))     (* pairs sorted by key (object.Cmp) *)
-| XCloLocal (n : name) (w : cval)  (* a function value func(){n}, created in a function frame that binds n to w itself *)
-| XCloOuter (n : name).            (* the same, when that frame only holds a reference to the top-level n *)
+| XCloLocal (txt id : nat) (n : name) (w : cval)
+    (* a function value func(){n} made in a function frame that binds n to w itself.  txt: its printed text (CacheKey);
+       id: the frame it was made in (Function.Env, a pointer): one per creation *)
+| XCloOuter (txt id : nat) (n : name).
+    (* the same, when that frame only holds a reference to the top-level n *)
 
 (* numeric value in quarters: the order object.Cmp puts on integers and floats together (exact since b7336f5) *)
 Definition num_q (n : num) : Z := match n with NInt z => 4 * z | NFlt q => q | NNegZero => 0 end.
@@ -153,7 +156,9 @@ Definition key_eqb (a b : key) : bool :=
   | KStr x, KStr y => name_eqb x y
   | _, _ => false
   end.
-Fixpoint cval_eqb (a b : cval) : bool :=
+(* fe: functions are identical when they have the same text AND the same defining environment (repair of
+   object.Identical); fe = false: the same text is enough (pinned) *)
+Fixpoint cval_eqb (fe : bool) (a b : cval) : bool :=
   match a, b with
   | XNum x, XNum y => num_eqb x y
   | XNil, XNil => true
@@ -163,18 +168,19 @@ Fixpoint cval_eqb (a b : cval) : bool :=
     (fix go (l r : list cval) : bool :=
        match l, r with
        | [], [] => true
-       | x :: l', y :: r' => cval_eqb x y && go l' r'
+       | x :: l', y :: r' => cval_eqb fe x y && go l' r'
        | _, _ => false
        end) l r
   | XMap l, XMap r =>
     (fix go (l r : list (key * cval)) : bool :=
        match l, r with
        | [], [] => true
-       | (k, x) :: l', (k', y) :: r' => key_eqb k k' && cval_eqb x y && go l' r'
+       | (k, x) :: l', (k', y) :: r' => key_eqb k k' && cval_eqb fe x y && go l' r'
        | _, _ => false
        end) l r
-  | XCloLocal n x, XCloLocal m y => name_eqb n m && cval_eqb x y
-  | XCloOuter n, XCloOuter m => name_eqb n m
+  | XCloLocal t i n x, XCloLocal t' i' m y =>
+    Nat.eqb t t' && (negb fe || (Nat.eqb i i' && name_eqb n m && cval_eqb fe x y))
+  | XCloOuter t i n, XCloOuter t' i' m => Nat.eqb t t' && (negb fe || (Nat.eqb i i' && name_eqb n m))
   | _, _ => false
   end.
 
@@ -201,6 +207,8 @@ Fixpoint cval_cmp0 (a b : cval) : bool :=
        | (k, x) :: l', (k', y) :: r' => key_cmp0 k k' && cval_cmp0 x y && go l' r'
        | _, _ => false
        end) l r
+  | XCloLocal t _ _ _, XCloLocal t' _ _ _ | XCloLocal t _ _ _, XCloOuter t' _ _
+  | XCloOuter t _ _, XCloLocal t' _ _ _ | XCloOuter t _ _, XCloOuter t' _ _ => Nat.eqb t t'   (* Cmp on FUNC: the CacheKey *)
   | _, _ => false
   end.
 Definition same_type (a b : cval) : bool :=
@@ -301,11 +309,11 @@ Definition set_no_checks (e : env) (n : name) (v : cval) (create : bool) : env :
       end
     end.
 
-Record ccfg := mkccfg { use_reg : bool; const_test : bool; ccow : bool; strict_eq : bool }.
+Record ccfg := mkccfg { use_reg : bool; const_test : bool; ccow : bool; strict_eq : bool; fn_env : bool }.
 
 (* the same-value test of CreateOrSet *)
 Definition same_value (c : ccfg) (old v : cval) : bool :=
-  if strict_eq c then cval_eqb old v else cval_equals old v.
+  if strict_eq c then cval_eqb (fn_env c) old v else cval_equals old v.
 
 (* Environment.CreateOrSet: the environment may change even on error (Get leaves a reference behind) *)
 Definition create_or_set (c : ccfg) (e : env) (n : name) (v : cval) (create : bool) : env * res cval :=
@@ -349,7 +357,9 @@ Inductive expr :=
 | EAppend (y : name) (v : cval)             (* y+[v] *)
 | ECallSet (y : name) (k : key) (v : cval)  (* func(pp){pp[k]=v;pp}(y) *)
 | EPlus (x : expr) (v : cval)               (* x + v : the new value is computed from another one *)
-| EMkClo (n : name) (v : cval)              (* func(){n=v; func(){n}}() : a closure over a function-scope binding *)
+| EMkClo (id : nat) (n : name) (v : cval)    (* func(){n=v; func(){n}}() : a closure over a function-scope binding;
+                                               id: unique per occurrence (the text of the literal is unique too) *)
+| EMaker (id : nat) (v : cval)              (* mk(v) with mk=func(mkn){func(){mkn}}: every such closure prints alike *)
 | ECallClo (g : name).                      (* g() *)
 
 Inductive attempt :=
@@ -444,12 +454,13 @@ Definition x_plus (v : cval) (x : cval) : res cval :=
     | XNum (NFlt _) | XNum NNegZero => Err    (* a float operand is tried as float arithmetic first: error *)
     | _ => Ok (XArr (a ++ [x]))
     end
-  | XNil | XBool _ => Err
+  | XNil | XBool _ | XCloLocal _ _ _ _ | XCloOuter _ _ _ => Err
   | XMap _ => match x with XMap _ => Dom | _ => Err end
   | _ => Dom
   end.
 
 Definition root_frame (e : env) : option frame := nth_error e (length e - 1).
+Definition maker_param : name := [109; 107; 110]%N.   (* "mkn" *)
 
 Fixpoint eval_expr (c : ccfg) (e : env) (ex : expr) : env * res cval :=
   match ex with
@@ -462,14 +473,15 @@ Fixpoint eval_expr (c : ccfg) (e : env) (ex : expr) : env * res cval :=
   | EAppend y x => on_value (read_name e y) (fun v => x_append v x)
   | ECallSet y k x => on_value (read_name e y) (fun v => x_idx_set v k x)
   | EPlus x v => on_value (eval_expr c e x) (fun w => x_plus w v)
-  | EMkClo n v =>
+  | EMaker id v => (e, Ok (XCloLocal 0 id maker_param v))
+  | EMkClo id n v =>
     (* only at top level: the captured frame then has the top-level environment as its only outer frame *)
     if negb (length e =? 1) then (e, Dom) else
     match create_or_set c (empty_frame :: e) n v false with
     | (f :: t, Ok _) =>
       match nlookup (fstore f) n with
-      | Some (OVal w) => (t, Ok (XCloLocal n w))
-      | Some (ORef _ _) => (t, Ok (XCloOuter n))
+      | Some (OVal w) => (t, Ok (XCloLocal (S id) id n w))
+      | Some (ORef _ _) => (t, Ok (XCloOuter (S id) id n))
       | None => (t, Stuck)
       end
     | (e1, Ok _) => (tl e1, Stuck)
@@ -478,8 +490,8 @@ Fixpoint eval_expr (c : ccfg) (e : env) (ex : expr) : env * res cval :=
   | ECallClo g =>
     (* the call runs in a new frame whose outer frame is the captured one, then the top level *)
     match read_name e g with
-    | (e1, Ok (XCloLocal n w)) => (e1, Ok w)
-    | (e1, Ok (XCloOuter n)) =>
+    | (e1, Ok (XCloLocal _ _ n w)) => (e1, Ok w)
+    | (e1, Ok (XCloOuter _ _ n)) =>
       (e1, match root_frame e1 with
            | Some f => match nlookup (fstore f) n with Some (OVal w) => Ok w | _ => Dom end
            | None => Stuck
@@ -601,5 +613,5 @@ Definition root_value (e : env) (n : name) : option cval :=
   | _ => None
   end.
 
-Definition repo_ccfg (reg : bool) : ccfg := mkccfg reg true true true.
-Definition pinned_ccfg (reg : bool) : ccfg := mkccfg reg false false false.
+Definition repo_ccfg (reg : bool) : ccfg := mkccfg reg true true true true.
+Definition pinned_ccfg (reg : bool) : ccfg := mkccfg reg false false false false.
